@@ -4,7 +4,7 @@ Not a fixpoint analysis: loop-carried values are 'unknown' (None) and can never 
 take the union of their branches; call results come from a frozen table (one reason per line)."""
 import re
 
-from .facts import strip, render
+from .facts import strip, render, phi_branch_conditions
 
 INT_RANGE = {
     'i8': (-2**7, 2**7 - 1), 'i16': (-2**15, 2**15 - 1), 'i32': (-2**31, 2**31 - 1), 'i64': (-2**63, 2**63 - 1), 'i128': (-2**127, 2**127 - 1), 'isize': (-2**63, 2**63 - 1),
@@ -95,6 +95,14 @@ def interval(body, e, depth=0, env=None):
             return (int(v), int(v))
         return None
     if k == 'arg':
+        if body.kind == 'closure' and e[1] >= 2:
+            r = closure_param_interval(body, e[1], depth, env)
+            if r is not None:
+                return r
+        elif body.kind in ('fn', 'method'):
+            r = param_interval_from_callers(body, e[1], depth, env)
+            if r is not None:
+                return r
         return INT_RANGE.get(body.locals.get(e[1], ''))
     if k == 'cast':
         to = e[2]
@@ -165,7 +173,7 @@ def interval(body, e, depth=0, env=None):
             # branch refinement: the branch value itself is compared with a constant on the edge that selects it
             try:
                 at = render(strip(a, transparent=False))
-                for (_, d, v) in (b2.branch_conditions(where) if len(e) <= 6 or e[6] is None else []):
+                for (_, d, v) in (phi_branch_conditions(b2, where) if len(e) <= 6 or e[6] is None else []):
                     ds = strip(d, transparent=False)
                     if ds[0] != 'binop' or ds[1] not in ('Lt', 'Le', 'Gt', 'Ge'):
                         continue
@@ -218,10 +226,114 @@ def interval(body, e, depth=0, env=None):
         return INT_RANGE.get(ty or '')
     if k in ('deref', 'ref'):
         return interval(body, e[1], depth + 1, env)
+    if k == 'field' and body.kind == 'closure':
+        root = _spine_root(e)
+        if root[0] == 'arg' and root[1] >= 2:
+            pe = closure_arg_expr(body, root[1])
+            if pe is not None:
+                from .facts import subst_args
+                args = [('arg', j + 1, None) for j in range(body.argc)]
+                args[root[1] - 1] = pe[1]
+                return interval(pe[0], subst_args(e, args), depth + 1, env)
     if k == 'field':
+        # payload of Some(position(..)): an index into the iterated collection
+        b_ = e[1]
+        if b_[0] == 'downcast' and b_[2] == 'Some':
+            src = strip(b_[1], transparent=False)
+            if src[0] == 'call' and re.search(r'Iterator>?::(position|rposition)$', src[1]):
+                return (0, 2**63 - 2)
         full = e[3] if len(e) > 3 else ''
         if env and ('field:' + full) in env:
             return env['field:' + full]
         ty = e[4] if len(e) > 4 else None
         return INT_RANGE.get(ty or '')
     return None
+
+
+def closure_arg_expr(body, idx):
+    """(parent body, expression) denoted by parameter idx (>= 2) of a closure, when the closure is handed to an Option /
+    Result combinator in its creating function (map, map_or, and_then, ...: the parameter is the Some / Ok payload)"""
+    parent = body.facts.bodies.get(body.rec.get('parent') or '')
+    if parent is None or idx != 2:
+        return None
+    for i in parent.normal_blocks:
+        t = parent.blocks[i]['term']
+        if t['k'] != 'call' or not t.get('callee'):
+            continue
+        for a in t['args']:
+            ae = strip(parent.expr(a), transparent=False)
+            if ae[0] == 'aggr' and ae[1] == 'closure:' + body.path:
+                path = t['callee']['path']
+                m = re.search(r'(Option|Result)::<.*>::(map|map_or|map_or_else|and_then|filter|is_some_and|inspect)$', path)
+                if m:
+                    o = parent.expr(t['args'][0])
+                    return parent, ('field', ('downcast', o, 'Some' if m.group(1) == 'Option' else 'Ok'), '0', 'core::option::Option.0')
+                return None
+    return None
+
+
+def _spine_root(e):
+    n = 0
+    while e[0] in ('field', 'downcast', 'deref', 'ref') and n < 20:
+        e = e[1]
+        n += 1
+    return e
+
+
+def closure_param_interval(body, idx, depth, env):
+    """interval of parameter `idx` (>= 2; 1 is the environment) of a closure, from the std combinator it is handed to in the
+    creating function: Option::map / map_or / and_then / filter apply it to the Some payload; Iterator::position / any / all /
+    map / filter / for_each to the items (an enumerate() item's .0 is an index)"""
+    parent = body.facts.bodies.get(body.rec.get('parent') or '')
+    if parent is None or depth > 40:
+        return None
+    for i in parent.normal_blocks:
+        t = parent.blocks[i]['term']
+        if t['k'] != 'call' or not t.get('callee'):
+            continue
+        for a in t['args']:
+            ae = strip(parent.expr(a), transparent=False)
+            if ae[0] == 'aggr' and ae[1] == 'closure:' + body.path:
+                path = t['callee']['path']
+                if re.search(r'Option::<.*>::(map|map_or|map_or_else|and_then|filter|is_some_and|inspect)$', path) and idx == 2:
+                    o = parent.expr(t['args'][0])
+                    return interval(parent, ('field', ('downcast', o, 'Some'), '0', 'core::option::Option.0'), depth + 1, env)
+                return None
+    return None
+
+
+_PARAM_CACHE = {}
+
+
+def param_interval_from_callers(body, idx, depth, env):
+    """interval of an integer parameter of a crate-local function that is only ever called directly (no fn pointer, no trait
+    dispatch, not a public entry): the union of the argument intervals at all its call sites (evaluated in the callers)"""
+    ty = body.locals.get(idx, '')
+    if ty not in INT_RANGE or depth > 30:
+        return None
+    key = (body.facts.path, body.path, idx)
+    if key in _PARAM_CACHE:
+        return _PARAM_CACHE[key]
+    _PARAM_CACHE[key] = None
+    if re.search(r' as .*>::', body.path) or re.match(r'^smartcalc::SmartCalc::', body.path):
+        return None
+    out = None
+    n = 0
+    for caller in body.facts.bodies.values():
+        if not caller.file.startswith('src/'):
+            continue
+        for i in caller.normal_blocks:
+            for st in caller.blocks[i]['stmts']:
+                if st['k'] == 'assign' and st['rv'] == 'cast' and st.get('reify') and st['reify']['path'] == body.path:
+                    return None            # address taken: callers are not enumerable
+            t = caller.blocks[i]['term']
+            if t['k'] == 'call' and t.get('callee') and t['callee']['path'] == body.path and idx - 1 < len(t['args']):
+                iv = interval(caller, caller.expr(t['args'][idx - 1]), depth + 1, env)
+                if iv is None:
+                    return None
+                out = iv if n == 0 else union(out, iv)
+                n += 1
+    if n == 0:
+        return None
+    _PARAM_CACHE[key] = out
+    return out
